@@ -406,7 +406,30 @@ pub fn random_ir(t: &mut Tape) -> Value {
         }
         services.push(json!({"serviceName": {"name": format!("Svc{}", s), "package": t.pick(&packages)}, "endpoints": eps}));
     }
-    json!({"version": 1, "errors": errors, "types": types, "services": services, "extensions": {}})
+    json!({"version": 1, "errors": errors, "types": types, "services": services, "extensions": extensions(t)})
+}
+
+/// the `extensions` block of an IR: product dependencies end up in a generated crate's manifest
+fn extensions(t: &mut Tape) -> Value {
+    match t.draw(3) {
+        0 => json!({}),
+        1 => json!({"recommended-product-dependencies": []}),
+        _ => {
+            let n = 1 + t.draw(6);
+            let deps: Vec<Value> = (0..n)
+                .map(|i| {
+                    json!({
+                        "product-group": format!("com.palantir.{}", *t.pick(&["alpha", "beta", "gamma", "delta"])),
+                        "product-name": format!("service-{}", i),
+                        "minimum-version": format!("{}.{}.0", 1 + t.draw(9), t.draw(20)),
+                        "maximum-version": format!("{}.x.x", 10 + t.draw(5)),
+                        "recommended-version": format!("{}.{}.{}", 1 + t.draw(9), t.draw(20), t.draw(9)),
+                    })
+                })
+                .collect();
+            json!({"recommended-product-dependencies": deps, "other-extension": {"k": [1, 2, 3]}})
+        }
+    }
 }
 
 /// IRs rich in reference cycles: rings of objects whose members reach doubles,
@@ -508,7 +531,7 @@ pub fn cyclic_ir(t: &mut Tape) -> Value {
         json!([])
     };
     json!({"version": 1, "errors": errors, "types": types,
-           "services": [{"serviceName": {"name": "HolderService", "package": "com.palantir.ring"}, "endpoints": eps}], "extensions": {}})
+           "services": [{"serviceName": {"name": "HolderService", "package": "com.palantir.ring"}, "endpoints": eps}], "extensions": extensions(t)})
 }
 
 const REPO_IRS: &[&str] = &[
